@@ -813,6 +813,11 @@ def lag_trace(seed, n_events=300, workdir=None, keep_obs=False, listeners=()):
     cfg = default_cfg(rng, voters)
     cfg.update(fallback=rng.choice([300, 3000, 100000]), queue=1000, min_entries=10 ** 9, min_time=10 ** 9,
                batch=rng.choice([60, 100, 1000, 65536]), chunk=rng.choice([7, 64, 200, 65536]))
+    # one schedule in three runs with journal and dump files, and the lagging node is now and then killed and started
+    # again from them in the middle of being caught up (refused or half-received snapshots x what a restart begins with)
+    persistent = (seed % 3 == 1)
+    if persistent:
+        cfg.update(journal='file', dump='file')
     rec = Recorder(cfg, workdir)
     rec.keep_obs = keep_obs
     rec.listeners = list(listeners)
@@ -897,6 +902,9 @@ def lag_trace(seed, n_events=300, workdir=None, keep_obs=False, listeners=()):
                     sch.submit(L, size=20)
                 else:
                     sch.tick(victim, cfg['period'] + 1)
+            if persistent and victim in sch.alive and rng.random() < 0.12:
+                sch.kill(victim)
+                sch.restart(victim)
         if rng.random() < 0.5:
             others_round(None, rng.randrange(1, 3))
     # settle: everything delivered, a few calm rounds
